@@ -36,7 +36,7 @@ type c16Config struct {
 	TargetComp []string
 	Rounds     int
 	Size       int
-	ReadStyle  int // 0 ReadFull(5)+ReadFull(n), 1 one byte at a time, 2 32 KiB buffer
+	ReadStyle  int // 0 ReadFull(5)+ReadFull(n), 1 one byte at a time, 2 32 KiB buffer for the payload, 3 a buffered reader (4 KiB reads, frames cut out of what has arrived)
 	HandlerFl  bool
 	SplitWrite bool // envelope and payload in separate Write calls
 	// Wrapped: ServeHTTP is handed a middleware's ResponseWriter that buffers Write calls
@@ -127,7 +127,29 @@ func c16Exec(k c16Config, prefix []int) (*sched.Run, *c16Result) {
 				w.Header().Set(map[wire.Form]string{wire.GRPC: "Grpc-Encoding", wire.GRPCWeb: "Grpc-Encoding", wire.ConnectStream: "Connect-Content-Encoding"}[f], comp.Name)
 			}
 			w.WriteHeader(200)
+			var acc []byte // read style 3: a buffered reader in front of the body (bufio, grpc-go's transport)
 			readFrame := func() ([]byte, byte, error) {
+				if k.ReadStyle == 3 {
+					for {
+						if len(acc) >= 5 {
+							n := int(binary.BigEndian.Uint32(acc[1:5]))
+							if n > 1<<20 || acc[0]&^1 != 0 {
+								return nil, 0, fmt.Errorf("corrupt request envelope % x", acc[:5])
+							}
+							if len(acc) >= 5+n {
+								payload, flags := append([]byte(nil), acc[5:5+n]...), acc[0]
+								acc = acc[5+n:]
+								return payload, flags, nil
+							}
+						}
+						buf := make([]byte, 4096)
+						m, err := rq.Body.Read(buf)
+						acc = append(acc, buf[:m]...)
+						if err != nil && m == 0 {
+							return nil, 0, err
+						}
+					}
+				}
 				var env [5]byte
 				switch k.ReadStyle {
 				case 1:
@@ -332,10 +354,10 @@ func c16Configs(tier string) []c16Config {
 					}
 					for _, n := range rounds {
 						for _, sz := range sizes {
-							for rs := 0; rs < 3; rs++ {
+							for rs := 0; rs < 4; rs++ {
 								for fl := 0; fl < 2; fl++ {
 									for sp := 0; sp < 2; sp++ {
-										if tier != "thorough" && (rs == 2 && sp == 1 || n == 3 && sz == 300 && rs == 1) {
+										if tier != "thorough" && ((rs == 2 || rs == 3) && sp == 1 || n == 3 && sz == 300 && rs == 1) {
 											continue
 										}
 										out = append(out, c16Config{Client: cf, Target: tf, ClientCod: codecs[0], TargetCod: codecs[1], ClientComp: cp.c, TargetComp: cp.t,
@@ -361,7 +383,7 @@ func init() {
 		ID:    "C16",
 		Level: "model_checking",
 		Rule: "Strict ping-pong of n rounds between a client thread and a handler thread over the stream-mode transport (response bytes visible only when flushed, request frames only once written), for every pairing of streaming client form x streaming target x codec relation x compression relation " +
-			"x rounds x message size (0, 1, 300, 5000 bytes) x handler read style (exact ReadFull, byte-wise, 32 KiB buffer) x handler flushing or not x envelope+payload in one or two writes; a subset also with ServeHTTP handed a buffering middleware writer that offers Unwrap(). All schedules of the two threads are explored (DFS, no preemption bound; scheduling points at every body read, write, flush, pool and mutex operation). " +
+			"x rounds x message size (0, 1, 300, 5000 bytes) x handler read style (exact ReadFull, byte-wise, 32 KiB buffer, buffered reader) x handler flushing or not x envelope+payload in one or two writes; a subset also with ServeHTTP handed a buffering middleware writer that offers Unwrap(). All schedules of the two threads are explored (DFS, no preemption bound; scheduling points at every body read, write, flush, pool and mutex operation). " +
 			"A state is a scheduling decision point; a trace is one complete schedule of the real implementation. Non-trivial = distinct configuration that completed at least two rounds.",
 		Assume:  []string{"stream-mode transport never flushes on its own (real HTTP/2 flushes a full buffer; a lost flush leaves the tail of a message invisible in both)", "every explored trace is an execution of the implementation itself (no separate model)"},
 		Custom:  c16Custom,
